@@ -97,7 +97,8 @@ theorem limits_pinned :
       "parseCapabilities=map[string]bool{ \"OsmSchema-V0.6\": true, \"DenseNodes\": true, \"HistoricalInformation\": true, }",
       "osmHeaderType=\"OSMHeader\"", "osmDataType=\"OSMData\""] := by decide
 
-/-- oversized and negative block sizes, unknown blob encoding, wrong uncompressed size, unexpected block type
+/-- oversized and negative block sizes, unknown blob encoding, wrong or out-of-range uncompressed size (checked before
+    anything is allocated; inflation is cut one byte past the declared size), unexpected block type
     (first block and later blocks), unsupported required feature, plain node groups: each has its rejecting
     check; a reference out of range inside a block is recovered into an error by `Decode`; the mandatory dense
     columns are rejected by `scanDenseNodes` (`Props.C01.T.postChecks`) -/
@@ -106,7 +107,9 @@ theorem damage_checks_present :
     rejects readBlobHeaderBody "blobHeader.GetDatasize() < 0" = true ∧
     rejects readBlobHeaderBody "blobHeader.GetDatasize() >= maxBlobSize" = true ∧
     rejects getDataBody "buf.Len() != int(blob.GetRawSize())" = true ∧
-    rejects getDataBody "_, err = buf.ReadFrom(r); err != nil" = true ∧
+    rejects getDataBody "rawSize < 0 || rawSize >= maxBlobSize" = true ∧
+    getDataBody.contains "rawSize := int(blob.GetRawSize())" = true ∧
+    rejects getDataBody "_, err = buf.ReadFrom(io.LimitReader(r, int64(rawSize)+1)); err != nil" = true ∧
     getDataBody.contains "default:" = true ∧ getDataBody.getLast? = some "}" ∧
     (getDataBody.dropWhile (· ≠ "default:")).take 2 = ["default:", "return nil, errors.New(\"unknown blob data\")"] ∧
     rejects startBody "blobHeader.GetType() != osmDataType" = true ∧
